@@ -55,4 +55,129 @@ theorem lancero_blocks_never_crash {σ ρ : Type} (fops : C04.FloatOps σ ρ) (z
   exact C01.C01_no_crash _ npre nsamp saved hlen zts hzt _ st.next
     (opsOK_weave _ hw st.next (lancero_blocks_opsOK mk g _ st.next hnext hshape hcont))
 
+/-! ### no pulse lost, end to end -/
+
+/-- Lancero blocks with the right shape and contiguous frame numbers are, for every pipeline channel, a
+run of blocks in the sense of the per-channel projection (`Pipe.BlocksFor`), provided the signedness
+flag handed over with the blocks is the same for all of them; `tp` lists the stamps the blocks carry -/
+theorem lancero_blocks_blocksFor (mk : C04.Block → Int × Int × List Bool) (g : C04.Geom) (j : Nat) (sg : Bool)
+    (hsg : ∀ b, ((mk b).2.2)[j]?.getD false = sg) (tp : Nat → Int × Int) :
+    ∀ (bs : List C04.Block) (n : Nat) (f : Int), C04.shapeOK g bs = true → C04.contiguous f bs = true →
+      j < g.nchan →
+      (∀ (i : Nat) (b : C04.Block), bs[i]? = some b → tp (n + i) = ((mk b).1, (mk b).2.1)) →
+      BlocksFor j sg tp n f (bs.map (lblockOp mk)) (bs.map fun b => b.data.getD j [])
+  | [], _, _, _, _, _, _ => rfl
+  | b :: bs, n, f, hs, hc, hj, htp => by
+    simp only [C04.shapeOK, List.all_cons, Bool.and_eq_true, beq_iff_eq, List.all_eq_true] at hs
+    obtain ⟨⟨hlen, hall⟩, hrest⟩ := hs
+    simp only [C04.contiguous, Bool.and_eq_true, decide_eq_true_eq] at hc
+    obtain ⟨⟨hfirst, _⟩, hc'⟩ := hc
+    have hjl : j < b.data.length := by rw [hlen]; exact hj
+    have hd : b.data[j]? = some b.data[j] := List.getElem?_eq_getElem hjl
+    have hdl : (b.data[j]).length = b.nframes := hall _ (List.getElem_mem hjl)
+    refine ⟨(mk b).1, (mk b).2.1, b.data[j], bs.map (fun b => b.data.getD j []), ?_, ?_, ?_, ?_⟩
+    · simp only [lblockOp, blockOf, hsg b, hd, Option.getD_some, hfirst]
+    · have := htp 0 b (by simp)
+      simpa using this
+    · simp [List.getD_eq_getElem?_getD, hd]
+    · rw [hdl]
+      exact lancero_blocks_blocksFor mk g j sg hsg tp bs (n + 1) (f + b.nframes)
+        (by simp only [C04.shapeOK, List.all_eq_true, Bool.and_eq_true, beq_iff_eq]; exact hrest) hc' hj
+        (by
+          intro i b' hb'
+          have := htp (i + 1) b' (by simpa using hb')
+          rw [show n + 1 + i = n + (i + 1) by omega]
+          exact this)
+
+theorem concatChan_eq_flatten (bs : List C04.Block) (j : Nat) :
+    C04.concatChan bs j = (bs.map fun b => b.data.getD j []).flatten := by
+  simp [C04.concatChan, List.flatMap_def]
+
+/-- **No pulse lost, end to end (Lancero).**  For every geometry, every list of well-formed frames, EVERY
+schedule of reads, every mixer state, every pipeline channel `j`, any trigger settings restored at
+`PrepareRun` (`saved`) and valid record lengths: the reader does not crash, and on the stream channel `j`
+receives — `concatChan blocks j`, which `C04_chunking_independent` identifies with the card's words — the
+primary records the source publishes satisfy the clauses of C02 (`C02_source_level`: edge and level
+completeness, soundness). -/
+theorem lancero_no_pulse_lost {σ ρ : Type} (fops : C04.FloatOps σ ρ) (zero : σ) (scaleOf : Nat → σ)
+    (g : C04.Geom) (hg : C04.geomOK g = true) (frames : List C04.Frame)
+    (hwf : ∀ fr ∈ frames, C04.frameWF g fr = true) (ticks : List (Nat × Int))
+    (st : C04.DState σ) (hf0 : -2305843009213693952 + nsamp ≤ st.next)
+    (mk : C04.Block → Int × Int × List Bool) (j : Nat) (hj : j < g.nchan) (sg : Bool)
+    (hsg : ∀ b, ((mk b).2.2)[j]?.getD false = sg)
+    (npre : Int) (hlen : 3 ≤ npre ∧ npre < nsamp) (saved : List (Nat × Trig.TS))
+    (zts : List (List (Int × Int))) :
+    ∃ bufs, C04.runReader g { pending := [], future := C04.encFrames frames } false ticks = .ok bufs ∧
+      let blocks := C04.blocksOf (C04.runSteps fops zero scaleOf g st (bufs.map C04.Step.buf))
+      ∀ res, runOps zts (prepare g.nchan npre nsamp saved) (blocks.map (lblockOp mk)) = some res →
+      ∃ (c : Trig.Chan) (parts : List (List Trig.Rec × List Trig.Rec)),
+        (prepare g.nchan npre nsamp saved).chans[j]? = some c ∧ OutsFor j res parts ∧
+        let prims := ((parts.map (·.1)).flatten).map (·.frame)
+        let S := C04.concatChan blocks j
+        (c.ts.edge = true → ∀ p : Int, npre ≤ p → p + (nsamp - npre) < (S.length : Int) →
+          Trig.edgeAtG (Trig.cfgChan c.ts sg) S p = true → Trig.Cov nsamp st.next prims p) ∧
+        (c.ts.level = true → ∀ p : Int, npre ≤ p → p + (nsamp - npre) < (S.length : Int) →
+          Trig.levelAtG (Trig.cfgChan c.ts sg) S p = true → Trig.Near nsamp st.next prims p) ∧
+        (∀ T ∈ prims, Trig.SoundAt c.ts sg S st.next T) := by
+  obtain ⟨bufs, hrun, _, hrest⟩ := C04.C04_chunking_independent fops zero scaleOf g hg frames hwf ticks st
+  obtain ⟨_, _, hcont, _, hshape, _⟩ := hrest
+  refine ⟨bufs, hrun, ?_⟩
+  intro blocks res hres
+  have hjn : j < (prepare g.nchan npre nsamp saved).chans.length := by simp [prepare]; exact hj
+  obtain ⟨c, hc⟩ : ∃ c, (prepare g.nchan npre nsamp saved).chans[j]? = some c :=
+    ⟨_, List.getElem?_eq_getElem hjn⟩
+  obtain ⟨hfresh, hem⟩ := C02.prepare_fresh (f0 := st.next) hc hf0
+  have hb := lancero_blocks_blocksFor mk g j sg hsg
+    (fun m => match blocks[m]? with | some b => ((mk b).1, (mk b).2.1) | none => (0, 0))
+    blocks 0 st.next hshape hcont hj (by intro i b hb; simp [hb])
+  obtain ⟨parts, hof, he, hl, _, _, hs⟩ := C02.C02_source_level hb hc hres hlen hem hfresh
+  rw [← concatChan_eq_flatten] at he hl hs
+  exact ⟨c, parts, hc, hof, he, hl, hs⟩
+
+/-- **Every edge in the card's error words is triggered or in dead time, whatever the read schedule.**
+The corollary of `lancero_no_pulse_lost` for the error channel `2(c·nrows+r)` of word (row r, column c):
+the stream the clauses speak about is literally the `err` component of word (r, c) of frames `0..N-1`
+of the card's byte stream (`N` = frames delivered; all but the last < 3 visible frames). -/
+theorem lancero_error_edges_never_lost {σ ρ : Type} (fops : C04.FloatOps σ ρ) (zero : σ) (scaleOf : Nat → σ)
+    (g : C04.Geom) (hg : C04.geomOK g = true) (frames : List C04.Frame)
+    (hwf : ∀ fr ∈ frames, C04.frameWF g fr = true) (ticks : List (Nat × Int))
+    (st : C04.DState σ) (hf0 : -2305843009213693952 + nsamp ≤ st.next)
+    (mk : C04.Block → Int × Int × List Bool) (r c : Nat) (hr : r < g.nr) (hcc : c < g.nc) (sg : Bool)
+    (hsg : ∀ b, ((mk b).2.2)[2 * (c * g.nr + r)]?.getD false = sg)
+    (npre : Int) (hlen : 3 ≤ npre ∧ npre < nsamp) (saved : List (Nat × Trig.TS))
+    (zts : List (List (Int × Int))) :
+    ∃ bufs, C04.runReader g { pending := [], future := C04.encFrames frames } false ticks = .ok bufs ∧
+      let blocks := C04.blocksOf (C04.runSteps fops zero scaleOf g st (bufs.map C04.Step.buf))
+      let N := C04.totalFrames blocks
+      N ≤ frames.length ∧
+      min ((ticks.map (·.1)).sum) (C04.encFrames frames).length < (N + 3) * g.fs ∧
+      ∀ res, runOps zts (prepare g.nchan npre nsamp saved) (blocks.map (lblockOp mk)) = some res →
+      ∃ (ch : Trig.Chan) (parts : List (List Trig.Rec × List Trig.Rec)),
+        (prepare g.nchan npre nsamp saved).chans[2 * (c * g.nr + r)]? = some ch ∧
+        OutsFor (2 * (c * g.nr + r)) res parts ∧
+        let prims := ((parts.map (·.1)).flatten).map (·.frame)
+        let S := (frames.take N).map fun fr => (fr.getD (r * g.nc + c) (0, 0)).1
+        (ch.ts.edge = true → ∀ p : Int, npre ≤ p → p + (nsamp - npre) < (S.length : Int) →
+          Trig.edgeAtG (Trig.cfgChan ch.ts sg) S p = true → Trig.Cov nsamp st.next prims p) ∧
+        (ch.ts.level = true → ∀ p : Int, npre ≤ p → p + (nsamp - npre) < (S.length : Int) →
+          Trig.levelAtG (Trig.cfgChan ch.ts sg) S p = true → Trig.Near nsamp st.next prims p) ∧
+        (∀ T ∈ prims, Trig.SoundAt ch.ts sg S st.next T) := by
+  obtain ⟨bufs, hrun, _, hrest⟩ := C04.C04_chunking_independent fops zero scaleOf g hg frames hwf ticks st
+  obtain ⟨hN, hav, hcont, _, hshape, herr, _⟩ := hrest
+  refine ⟨bufs, hrun, hN, hav, ?_⟩
+  intro res hres
+  have hlt := C04.lt_mul_of_parts c g.nc r g.nr hcc hr
+  have hj : 2 * (c * g.nr + r) < g.nchan := by unfold C04.Geom.nchan; omega
+  have hjn : 2 * (c * g.nr + r) < (prepare g.nchan npre nsamp saved).chans.length := by simp [prepare]; exact hj
+  obtain ⟨ch, hc⟩ : ∃ ch, (prepare g.nchan npre nsamp saved).chans[2 * (c * g.nr + r)]? = some ch :=
+    ⟨_, List.getElem?_eq_getElem hjn⟩
+  obtain ⟨hfresh, hem⟩ := C02.prepare_fresh (f0 := st.next) hc hf0
+  have hb := lancero_blocks_blocksFor mk g (2 * (c * g.nr + r)) sg hsg
+    (fun m => match (C04.blocksOf (C04.runSteps fops zero scaleOf g st (bufs.map C04.Step.buf)))[m]? with
+      | some b => ((mk b).1, (mk b).2.1) | none => (0, 0))
+    _ 0 st.next hshape hcont hj (by intro i b hb; simp [hb])
+  obtain ⟨parts, hof, he, hl, _, _, hs⟩ := C02.C02_source_level hb hc hres hlen hem hfresh
+  rw [← concatChan_eq_flatten, herr r c hr hcc] at he hl hs
+  exact ⟨ch, parts, hc, hof, he, hl, hs⟩
+
 end DastardV.Compose
